@@ -855,6 +855,25 @@ def check_roundtrip(desc, ctx):
         if not (r == iso) or not (iso == r):
             raise Violation(f"{w} re-imported isotherm != original although every compared field is identical in value and "
                             f"type: to_dict {iso.to_dict()} vs {r.to_dict()}", tag="eq")
+        if not sp:
+            # the same object edited in place after that first export (a metadata entry added; a measured value
+            # overwritten) and exported again: the clause holds for the isotherm as it now stands
+            iso.properties["zzedit"] = "again"
+            if isinstance(iso, pygaps.PointIsotherm) and len(iso.data_raw) >= 2:
+                col = iso.data_raw.columns.get_loc(iso.loading_key)
+                iso.data_raw.iloc[0, col] = iso.data_raw.iloc[1, col]
+            x2 = Snapshot(iso)
+            try:
+                r2 = roundtrip(desc, iso)
+            except pgError as e:
+                raise Violation(f"{w} second export (after an in-place edit) refused with {type(e).__name__}: {str(e)[:160]}",
+                                tag="second_export_refused")
+            if compare_core(desc, x2, r2):
+                ctx.label("eq:asserted_after_edit")
+                if not (r2 == iso) or not (iso == r2):
+                    raise Violation(f"{w} isotherm edited in place after a first export, exported again: the re-imported "
+                                    f"isotherm != the edited original although every compared field is identical in value "
+                                    f"and type: to_dict {iso.to_dict()} vs {r2.to_dict()}", tag="eq_after_edit")
     elif sp and desc["fmt"] == "xl" and sp["cls"] == "int":
         ctx.label("eq:int_as_float")
         if _content_python_equal(iso, r) and not (r == iso):
